@@ -17,6 +17,17 @@ use core::mem::MaybeUninit;
 use core::ops::Bound;
 
 // ---------------------------------------------------------------------------------------------
+// check!(cond, "msg"): a contract clause.  Under Kani every clause sits behind its own
+// nondeterministic guard, so a failing clause does not make the clauses after it unreachable
+// (Kani assumes an assertion after checking it) - each tagged clause is decided independently.
+// In the native replay build a failing clause is recorded and reported at the end of the harness.
+
+#[cfg(kani)]
+macro_rules! check { ($c:expr, $m:literal) => { { let verif_cond: bool = $c; if kani::any::<bool>() { assert!(verif_cond, $m); } } } }
+#[cfg(not(kani))]
+macro_rules! check { ($c:expr, $m:literal) => { { let verif_cond: bool = $c; if !verif_cond { nd::record_failure($m); } } } }
+
+// ---------------------------------------------------------------------------------------------
 // nondeterminism facade
 
 #[cfg(kani)]
@@ -39,7 +50,10 @@ pub(crate) mod nd {
         pub static CHOICES: RefCell<Vec<(usize, usize)>> = RefCell::new(Vec::new()); // (chosen index, domain size)
         pub static POS: RefCell<usize> = RefCell::new(0);
         pub static LOG: RefCell<Vec<String>> = RefCell::new(Vec::new());
+        pub static FAILED: RefCell<Vec<String>> = RefCell::new(Vec::new());
     }
+    pub fn record_failure(m: &str) { FAILED.with(|f| f.borrow_mut().push(m.to_string())); }
+    pub fn take_failures() -> Vec<String> { FAILED.with(|f| core::mem::take(&mut *f.borrow_mut())) }
     pub struct Rejected;
     fn pick(n: usize) -> usize {
         assert!(n > 0);
@@ -153,10 +167,13 @@ pub(crate) static mut CALLBACKS: usize = 0;
 pub(crate) static mut PANIC_AT_DROP: usize = 0;
 pub(crate) static mut PANIC_AT_CALLBACK: usize = 0;
 pub(crate) static mut DROP_ENTRIES: usize = 0;
+/// native bounded stand-in for the unwinding paths (C05/C06): real panics are injected and caught
+pub(crate) static mut SCENARIO: bool = false;
 
 pub(crate) fn ledger_reset() {
     unsafe {
         DROPS = [0; MAXID]; PARENT = [255; MAXID]; NEXT = 0; CALLBACKS = 0; DROP_ENTRIES = 0; WATCH_ON = false;
+        SCENARIO = false; PANIC_AT_DROP = 0; PANIC_AT_CALLBACK = 0;
         W_N = 0; W_ITEMS = core::ptr::null(); W_START = core::ptr::null(); W_SIZE = core::ptr::null();
     }
 }
@@ -206,10 +223,23 @@ fn watched_rel(t: *const Tok) -> usize {
 impl Drop for Tok {
     fn drop(&mut self) {
         #[cfg(not(kani))]
+        if unsafe { SCENARIO } {
+            // panic-injection scenarios: count every destructor run (also those on the unwind path), never assert
+            unsafe {
+                let id = self.id as usize;
+                if id >= MAXID { nd::record_failure("[C03,C04,C05,C06] destructor run on garbage (id out of range)"); return; }
+                if DROPS[id] != 0 { nd::record_failure("[C03,C04,C05,C06] element destroyed twice"); }
+                DROPS[id] = DROPS[id].saturating_add(1);
+                DROP_ENTRIES += 1;
+                if PANIC_AT_DROP != 0 && DROP_ENTRIES == PANIC_AT_DROP && !std::thread::panicking() { panic!("injected destructor panic"); }
+            }
+            return;
+        }
+        #[cfg(not(kani))]
         if std::thread::panicking() && unsafe { REPLAY_QUIET_UNWIND } { return; }
         unsafe {
             assert!((self.id as usize) < MAXID, "[C03,C04] destructor run on garbage (id out of range)");
-            assert!(DROPS[self.id as usize] == 0, "[C03,C05] element destroyed twice");
+            assert!(DROPS[self.id as usize] == 0, "[C03,C04,C05] element destroyed twice (destructor run on a slot that no longer holds a live element)");
             if W_N > 0 {
                 // destructor precondition (C05): the element being destroyed is outside the committed
                 // window of the watched buffer, and that window is valid and all-live, so that a panic
@@ -228,6 +258,14 @@ impl Drop for Tok {
 
 /// user-code entry point (C06): precondition = watched buffer is a valid all-live sequence
 pub(crate) fn callback_entry() {
+    #[cfg(not(kani))]
+    if unsafe { SCENARIO } {
+        unsafe {
+            CALLBACKS += 1;
+            if PANIC_AT_CALLBACK != 0 && CALLBACKS == PANIC_AT_CALLBACK && !std::thread::panicking() { panic!("injected user-code panic"); }
+        }
+        return;
+    }
     unsafe {
         assert!(watched_window_ok(), "[C06] buffer window is not a valid all-live sequence at user-code entry");
         CALLBACKS += 1;
@@ -390,16 +428,18 @@ pub fn replay_main() {
         nd::POS.with(|p| *p.borrow_mut() = 0);
         nd::LOG.with(|l| l.borrow_mut().clear());
         LAST.with(|l| l.borrow_mut().clear());
+        let _ = nd::take_failures();
         let r = panic::catch_unwind(f);
+        let recorded = nd::take_failures();
         let ch = nd::CHOICES.with(|c| c.borrow().clone());
         let used = nd::POS.with(|p| *p.borrow());
         let ch: Vec<(usize, usize)> = ch.into_iter().take(used).collect();
         let log = nd::LOG.with(|l| l.borrow().clone());
         match r {
-            Ok(()) => (None, ch, log),
+            Ok(()) => { if recorded.is_empty() { (None, ch, log) } else { (Some(recorded.join(" || ")), ch, log) } }
             Err(e) => {
                 if e.downcast_ref::<nd::Rejected>().is_some() { (None, ch, log) }
-                else { (Some(LAST.with(|l| l.borrow().clone())), ch, log) }
+                else { let mut all = recorded; all.push(LAST.with(|l| l.borrow().clone())); (Some(all.join(" || ")), ch, log) }
             }
         }
     };
@@ -457,4 +497,6 @@ pub(crate) unsafe fn ptr_rotate_model<T>(left: usize, mid: *mut T, right: usize)
 }
 
 include!("verif_kani_ops.rs");
+#[cfg(not(kani))]
+include!("verif_kani_scenarios.rs");
 include!("verif_kani_gen.rs");
